@@ -346,6 +346,13 @@ async fn cmd_pubsub(args: Vec<String>) -> Result<()> {
             let mut k = w;
             while k < cases.len() {
                 let run = k as u64 + 1;
+                if (k / par) % 25 == 24 {
+                    // The server notices that a subscriber has gone only when a write to it fails; on
+                    // these one-case topics nothing is written any more, the stream stays half-open and
+                    // counts against the connection's limit of 100 concurrent streams (open() would
+                    // wait for ever on the 100th case of a connection): use a fresh connection.
+                    client = connect_client(addr, &certs, BackoffStrategy::constant().with_max_attempts(0)).await?;
+                }
                 let mut rng = StdRng::seed_from_u64(seed.wrapping_mul(7919).wrapping_add(run));
                 let comp = COMPRESSIONS[(run as usize + seed as usize) % COMPRESSIONS.len()];
                 let topic = format!("/verif{}/case{}", seed % 1000, run);
